@@ -49,6 +49,10 @@ MANIFEST = {
             "(C07_moved_required, C07_inner_required_source) the inner-parser style carries over the inner parser's required SET with the prefix, tied to "
             "the regenerated AST facts of ActionParser._move_parser_actions; field lists with a class-typed member (required through "
             "add_subclass_arguments: no flagged action) are compared on the real code only (tables incl. required sets, then inputs). "
+            "(C07_same_table_X, C07_style_pairs_differ_X, C07_styles_nondotted_X, C07_styles_partial_X; Core/StylesX.lean) the wider member grammar - leaves, dataclass in "
+            "dataclass at any depth, Optional[Dataclass] (Node.optGroup), List[Dataclass] and class-typed members: the four declarations produce the same actions, and differ "
+            "exactly in the whole-group options (dotted), the `.help` options of class-typed members (inner) and null-lenient required members (dotted/inner via "
+            "add_subclass_arguments) - the three open findings as exact decidable classes; "
             "(C07_route_same_with_loaders, C07_argv_item_source) where a command-line item that is not an exact option string goes - a typed parent action, the "
             "unique option it abbreviates, ambiguous, unknown - does not depend on the loader options `--g` the three non-dotted styles add; tied to the "
             "regenerated statements of ActionTypeHint.parse_argv_item (a parent action is used only under `if typehint:`). The generators spell member options "
